@@ -118,6 +118,10 @@ func (p *Process) run() int {
 loop:
 	for {
 		err := p.setStateAndRun(p.getStartingStateName(), p.getProcessStarter())
+		if errors.Is(err, context.Canceled) {
+			log.Debug().Str("process", p.getName()).Msg("process stopped before it was launched")
+			break loop
+		}
 		if err != nil {
 			log.Error().Err(err).Msgf(`Failed to run command ["%v"] for process %s`, strings.Join(p.getCommand(), `" "`), p.getName())
 			p.logBuffer.Write(err.Error())
@@ -724,6 +728,10 @@ func (p *Process) getStatusName() string {
 func (p *Process) setStateAndRun(state string, runnable func() error) error {
 	p.stateMtx.Lock()
 	defer p.stateMtx.Unlock()
+	if err := p.procRunCtx.Err(); err != nil {
+		// a stop cancels the run context before it looks at the state (under this lock): nothing is launched any more
+		return err
+	}
 	p.procState.Status = state
 	p.onStateChange(state)
 	return runnable()
